@@ -69,6 +69,20 @@ def make_case(i):
         ptags = sorted(set(tuple(e['tag']) for cell in lib['cells'] for p in cell[key] for e in p['elements']))
         if ptags:
             q.append((op_, rnd.choice([0, 1]), -1, rnd.choice(ptags), 1, key + '_filtered'))
+    # order variation: in part of the cases a deep copy of the top cell is flattened first and answers the same queries (whatever the depth
+    # limit: nothing is left below it), then the untouched original answers them
+    q_copy = []
+    if rnd.random() < 0.4:
+        cp = 'c%d' % len(lib['cells'])
+        c.op('copy_cell', T, '666c6174636f7079', 1)
+        fa0 = rnd.choice([0, 1])
+        c.op('flatten', cp, fa0)
+        for op, ap, d, tg, inc, lab in q:
+            c.op(op, cp, ap, d, tg[0] if tg else '-', tg[1] if tg else '-', inc, 'cp_' + lab)
+            q_copy.append((op, ap, -1, tg, inc, 'cp_' + lab))
+        next_copy = 'c%d' % (len(lib['cells']) + 1)
+    else:
+        next_copy = 'c%d' % len(lib['cells'])
     for op, ap, d, tg, inc, lab in q:
         c.op(op, T, ap, d, tg[0] if tg else '-', tg[1] if tg else '-', inc, lab)
     # a query through a reference of the top cell (references answer the same queries)
@@ -82,14 +96,14 @@ def make_case(i):
         c.op('get_polygons', 'x%d' % (nx + ref_k), 0, -1, '-', '-', 1, 'via_ref')
     c.op('dump_cell', T)
     c.op('copy_cell', T, '636f7079', 1)
-    c.op('wreck_cell', 'c%d' % len(lib['cells']))
+    c.op('wreck_cell', next_copy)
     c.op('dump_cell', T)
     fa = rnd.choice([0, 1])
     c.op('flatten', T, fa)
     c.op('get_polygons', T, 1, 0, '-', '-', 1, 'flat_polys')
     c.op('get_labels', T, 1, 0, '-', '-', 1, 'flat_labels')
     c.op('dump_cell', T)
-    c.meta = {'spec': lib, 'seed': sd, 'want': want, 'queries': q, 'top': top, 'ref_k': ref_k, 'flatten_apply': fa}
+    c.meta = {'spec': lib, 'seed': sd, 'want': want, 'queries': q + q_copy, 'flattened_copy_first': bool(q_copy), 'top': top, 'ref_k': ref_k, 'flatten_apply': fa}
     return c
 
 
@@ -162,7 +176,17 @@ def judge(chk, c, evs):
             if tg:
                 exp = [x for x in exp if x[0] == tuple(tg)]
             got = flat.polys_from_dump(e['polys'])
-            if not flat.match_polys(exp, got):
+            same = flat.match_polys(exp, got)
+            if not same and lab.startswith('cp_') and len(exp) == len(got):
+                # on the flattened copy paths are outlined after their transform, not before: same shapes, other vertices -> regions per tag
+                same = True
+                for tag in set(t_ for t_, _ in exp):
+                    P = [pts for t_, pts in exp if t_ == tag]
+                    Q = [pts for t_, pts in got if t_ == tag]
+                    if geom.region_diff(P, Q, rnd, guard=60 * 1e-3 * g * 10 + 3 * g, samples=120):
+                        same = False
+                        break
+            if not same:
                 chk.violation('C06/get_polygons/' + ('attached-repetitions' if not ap else lab.rstrip('012')),
                               'get_polygons(apply_repetitions=%d, depth=%d, filter=%s, include_paths=%d) on the top cell: %d polygons (repetitions expanded), '
                               'hand flattening gives %d; the sets differ' % (ap, d, tg, inc, len(got), len(exp)), rp)
